@@ -2,6 +2,8 @@
 //verif:use store,corehelp
 //verif:assume end-to-end update through the real code: two bundles uploaded with implUpload into one repository (real cafs, BLAKE2b as injective UF), the first downloaded with Publish into a local store, then Update(remote second bundle, local copy) as the CLI calls it; compared with a fresh Publish of the second bundle
 //verif:assume trees over the files a, b, c: each absent or present with one of two contents in either bundle (a and b; c only in thorough), so identical trees under different bundle ids, empty trees, disjoint trees and same-path-different-content all occur
+//verif:assume update under faults: trees {a: one, d/b: one} -> {a: two, c: new} (one file changed, one removed, one added), the local copy updated with one transient fault at a solver-chosen store call (metadata, blob or local store, reads and listings included)
+//verif:cover VerifC05UpdateFaults update-failed
 //verif:cover VerifC05UpdateE2E identical-trees-different-ids empty-target empty-source changed-content nested-metadata-lookalike local-delete-fails
 package core
 
@@ -128,5 +130,53 @@ func VerifC05UpdateE2E() {
 			md, e := model.GetConsumableStorePathMetadata(k)
 			vAssert(e == nil && md.BundleID == b2.BundleID, "no-metadata-of-the-previous-bundle-remains")
 		}
+	}
+}
+
+// VerifC05UpdateFaults: one transient store fault at any store call of an Update: it reports the failure, or the
+// local copy ends byte-identical to a fresh download of the target.
+func VerifC05UpdateFaults() {
+	vBudget(900000000)
+	vUnwind(300000)
+	meta, blob := newVStore("meta"), newVStore("blob")
+	stores := vCtxStoresAll(meta, meta, blob)
+	ctx := context.Background()
+	vAssert(CreateRepo(model.RepoDescriptor{Name: "r", Description: "d", Contributor: model.Contributor{Name: "n", Email: "e@x.io"}}, stores) == nil, "create-repo")
+	upload := func(tree map[string]string, order []string) *Bundle {
+		src := newVStore("src")
+		for _, n := range order {
+			src.putRaw(n, []byte(tree[n]))
+		}
+		b := NewBundle(Repo("r"), ContextStores(stores), ConsumableStore(src), Logger(zap.NewNop()),
+			BundleDescriptor(model.NewBundleDescriptor(model.Message("m"), model.BundleContributor(model.Contributor{Name: "n", Email: "e@x.io"}))),
+			ConcurrentFileUploads(1))
+		b.BundleDescriptor.LeafSize = 64
+		vAssert(Upload(ctx, b) == nil, "upload")
+		return b
+	}
+	b1 := upload(map[string]string{"a": "one-a", "d/b": "one-b"}, []string{"a", "d/b"})
+	vNextSecond()
+	b2 := upload(map[string]string{"a": "two-a", "c": "new-c"}, []string{"a", "c"})
+	local := newVStore("local")
+	vAssert(Publish(ctx, NewBundle(Repo("r"), ContextStores(stores), ConsumableStore(local), BundleID(b1.BundleID), Logger(zap.NewNop()), ConcurrentFileDownloads(1), ConcurrentFilelistDownloads(1))) == nil, "first-download")
+	cr := &vCrasher{stores: []*vStore{meta, blob, local}, allCalls: true, transient: true}
+	cr.crashAt = vInt("faultAt", 1, 60)
+	cr.install()
+	localBundle := NewBundle(ConsumableStore(local), Logger(zap.NewNop()))
+	remoteBundle := NewBundle(Repo("r"), ContextStores(stores), BundleID(b2.BundleID), Logger(zap.NewNop()), ConcurrentFileDownloads(1), ConcurrentFilelistDownloads(1))
+	err := Update(ctx, remoteBundle, localBundle)
+	cr.revive()
+	vAssume(cr.crashed)
+	if err != nil {
+		vCover("update-failed")
+		return
+	}
+	vCover("update-survived-the-fault")
+	fresh := newVStore("fresh")
+	vAssert(Publish(ctx, NewBundle(Repo("r"), ContextStores(stores), ConsumableStore(fresh), BundleID(b2.BundleID), Logger(zap.NewNop()), ConcurrentFileDownloads(1), ConcurrentFilelistDownloads(1))) == nil, "fresh-download")
+	vAssert(len(local.keys) == len(fresh.keys), "updated-copy-has-exactly-the-objects-of-a-fresh-download")
+	for k, v := range fresh.data {
+		lv, ok := local.data[k]
+		vAssert(ok && string(lv) == string(v), "updated-copy-is-byte-identical-to-a-fresh-download")
 	}
 }
